@@ -67,6 +67,10 @@ def _nmax(ref, hard, cap):
 
 
 def _gen_class(rng, lim, related_to=None):
+    if rng.random() < 0.05:
+        # swarm: a few classes are followed one or two levels deeper than the bulk
+        lim = dict(lim, cmax=lim["cmax"] + 2, ref_max_c=lim["ref_max_c"] + 1, mmax=lim["mmax"] + 1, ref_max_m=lim["ref_max_m"] + 1,
+                   cap=max(60, lim["cap"] // 3))
     if related_to is not None and rng.random() < 0.25:
         # same underlying permutations, other shadings (or none): classes that
         # must not be confused with each other
